@@ -1083,7 +1083,10 @@ class BranchCascade(object):
                 if dev_branch is None:
                     raise errors.DevBranchDoesNotExist(
                         'development/%d.%d' % (major, minor))
-                dev_branch.has_stabilization = True
+                # the stabilization branch only holds the next patch
+                # version of the development branch if it is that version
+                if stb_branch.micro == dev_branch.micro + 1:
+                    dev_branch.has_stabilization = True
 
             # remove untargetted branches from cascade
             if dst_branch == dev_branch:
